@@ -5,6 +5,7 @@ What the graph queries themselves return is C01's subject; these theorems hold f
 -/
 import Hpv.GraphModelProofs
 import Hpv.Props.C01
+import Hpv.Props.C03
 
 namespace Hpv.Props.C18
 open Hpv.Graph Hpv.GM
@@ -86,6 +87,33 @@ theorem augment_many (o : Graph.Ord κ) (g : G κ) (q : Q) (srcs : List (Option 
           · exact Or.inr ⟨s', hs', l', hl', hx⟩
 
 theorem augment_empty (o : Graph.Ord κ) (g : G κ) (q : Q) (incl : Bool) : augmentMany o g q [] incl = .ok [] := rfl
+
+/-- **`exists_path`, end to end, for the graphs of all three factories**: on an acyclic rooted edge list a path exists
+from `a` to `b` exactly when `b` is reachable from `a` over one or more is_a edges (a strict ancestor). -/
+theorem exists_path_exact {o : Graph.Ord κ} {owl : κ} {E : List (Edge κ)} {root : κ} {E' : List (Edge κ)} {g : IGraph κ}
+    (h : BuiltIx o owl E root E' g) (hacyc : ∀ x, ¬ Relation.TransGen (Hpv.Props.C01.IsA E') x x)
+    (a b : κ) (ha : a ∈ g.nodes) :
+    ∃ gi gb, buildIncremental o owl E = .ok gi ∧ buildBuilder o owl E = .ok gb ∧
+      ∀ G : G κ, (G = .ix g ∨ G = .mx gi ∨ G = .mx gb) →
+        ∃ r, existsPath o G (some a) (some b) = .ok r ∧ (r = true ↔ Relation.TransGen (Hpv.Props.C01.IsA E') a b) := by
+  obtain ⟨gi, gb, hgi, hgb, _, _, _, _, _, hagree⟩ := Hpv.Props.C03.factories_agree h hacyc
+  obtain ⟨r, ri, rb, q1, q2, q3, _, _, _, hm⟩ := hagree .ancestors a ha
+  obtain ⟨r', q1', _, hmem⟩ := Hpv.Props.C01.ancestors_closure h a ha
+  rw [q1] at q1'; injection q1' with q1'; subst q1'
+  have key : ∀ (res : List κ), (∀ x, x ∈ r ↔ x ∈ res) →
+      (decide (a ≠ b ∧ b ∈ res) = true ↔ Relation.TransGen (Hpv.Props.C01.IsA E') a b) := by
+    intro res hres
+    rw [decide_eq_true_iff]
+    constructor
+    · rintro ⟨_, hb⟩; exact (hmem b).mp ((hres b).mpr hb)
+    · intro hab
+      refine ⟨?_, (hres b).mp ((hmem b).mpr hab)⟩
+      intro heq; subst heq; exact hacyc a hab
+  refine ⟨gi, gb, hgi, hgb, ?_⟩
+  rintro G (rfl | rfl | rfl)
+  · exact ⟨_, existsPath_spec o (.ix g) a b r q1, key r (fun _ => Iff.rfl)⟩
+  · exact ⟨_, existsPath_spec o (.mx gi) a b ri q2, key ri (fun x => (hm x).1)⟩
+  · exact ⟨_, existsPath_spec o (.mx gb) a b rb q3, key rb (fun x => (hm x).2)⟩
 
 -- non-vacuity on the C01 example graph
 open Hpv.Props.C01.Example in
